@@ -153,4 +153,5 @@ func TestC07(t *testing.T) {
 		}
 	}
 	c07Concurrent(run, r)
+	c07CloseWindow(run)
 }
